@@ -28,7 +28,7 @@ MAP_FIELDS = {"labels", "sel", "nsSel"}
 ALL_ARCHS = "{1,2,3,4,5,6,7,8,9,10,11,12,13,14,15,16,17,18,19,20,21,22,23}"
 ALL_LAYOUTS = "{0,1,2,3,4,5,6,7,8,9}"
 FLAGS = ("W_AllDomains = TRUE  W_Inverse = TRUE  W_Certain = TRUE  W_Bootstrap = TRUE  W_Slack = 0  W_Exclude = TRUE  "
-         "W_MatchKeys = TRUE  W_MinDomains = TRUE  W_Policies = TRUE")
+         "W_MatchKeys = TRUE  W_MinDomains = TRUE  W_Policies = TRUE  W_Guard = TRUE")
 INVS = ["Inv_C02_EndState", "Inv_C02_Admission", "Inv_C02_Forms"]
 SCOPE = {
     # mc: exhaustive closed-model scopes; gen: scenario enumeration scopes (replay = sample size, None = all);
@@ -131,6 +131,32 @@ def tlc_weak(run, w):
     return "no violation" + (" (%s)" % m.group(1) if m else "")
 
 
+def judge(run, files, par=None):
+    """trace validation: admission-time guards (hook H1) + anti-affinity on Results, then the order-free end-state forms alone"""
+    viol = run.validate("Topology_Trace", "Topology_Trace.cfg", files, par=par, timeout=3000)
+    hooked = bool(run.extra_cov.get("hook_h1_events"))
+    counted = (run.traces_validated, run.events_validated)
+    viol_end = run.validate("Topology_Trace", "Topology_TraceEnd.cfg", files, par=par, timeout=3000)
+    run.traces_validated, run.events_validated = counted      # the second pass judges the same traces
+    notes = [v for v in viol if str(v.get("guard", "")).startswith("Note_")]
+    judged = [v for v in viol if v not in notes]
+    if hooked:
+        # with the hook every pass was already judged at admission time, with narrow signatures; the order-free forms are weaker, so each of
+        # their failures must fall into a trace the admission-time guards failed on too - one that does not is reported on its own
+        failed = {(v["file"], trace_of(v["file"], v["line"])) for v in judged}
+        unexplained = [v for v in viol_end if (v["file"], trace_of(v["file"], v["line"])) not in failed]
+        run.notes.append("end-state forms (no hook needed): %d failures, %d of them in passes the admission-time guards did not fail on"
+                         % (len(viol_end), len(unexplained)))
+        run.viol = judged + unexplained
+    else:
+        run.viol = judged + viol_end
+        run.notes.append("tree without hook H1: only the end-state forms were evaluated")
+    if notes:
+        run.notes.append("MODEL-DRIFT (no verdict): in %d admissions the code's own count of the target domain lay outside the spec's "
+                         "[certain, possible] interval" % len(notes))
+    return judged, viol_end, notes, hooked
+
+
 OPTS = [{"preference": pr, "workers": w} for pr in ("Respect", "Ignore") for w in (1, 2, 8)]
 
 
@@ -154,6 +180,8 @@ def check(run):
             raise vlib.InfraError("coverage run of the closed model failed: %s" % (r.violated or r.error))
         if r.coverage_zero:
             raise vlib.InfraError("vacuous closed model, actions never taken: %s" % r.coverage_zero)
+        # the order-free end-state forms vs the resolution semantics over ALL placement sequences (guards off)
+        run.closed_model("Topology", "Topology_Free.cfg", workers=4 if dev else None, heap="4g", timeout=1800)
 
         with cf.ThreadPoolExecutor(max_workers=2 if dev else 5) as ex:
             for w, got in ex.map(lambda w: (w, tlc_weak(run, w)), sorted(WEAK)):
@@ -195,25 +223,8 @@ def check(run):
     for s in sums:
         scn = by_name.get(s["name"])
         run.note_case(s["name"], bool(scn) and interpod(scn) and (s.get("onNew", 0) + s.get("onExisting", 0)) > 0)
-    # 4. trace validation: admission-time guards (hook H1) + anti-affinity on Results, then the order-free end-state forms alone
-    par = 4 if dev else None
-    viol = run.validate("Topology_Trace", "Topology_Trace.cfg", files, par=par, timeout=3000)
-    hooked = bool(run.extra_cov.get("hook_h1_events"))
-    counted = (run.traces_validated, run.events_validated)
-    viol_end = run.validate("Topology_Trace", "Topology_TraceEnd.cfg", files, par=par, timeout=3000)
-    run.traces_validated, run.events_validated = counted      # the second pass judges the same traces
-    notes = [v for v in viol if str(v.get("guard", "")).startswith("Note_")]
-    judged = [v for v in viol if v not in notes]
-    if hooked:
-        # with the hook every pass was already judged at admission time, with narrow signatures; the order-free forms are weaker, so each of
-        # their failures must fall into a trace the admission-time guards failed on too - one that does not is reported on its own
-        failed = {(v["file"], trace_of(v["file"], v["line"])) for v in judged}
-        unexplained = [v for v in viol_end if (v["file"], trace_of(v["file"], v["line"])) not in failed]
-        run.notes.append("end-state forms (no hook needed): %d failures, %d of them in passes the admission-time guards did not fail on"
-                         % (len(viol_end), len(unexplained)))
-        run.viol = judged + unexplained
-    else:
-        run.viol = judged + viol_end
+    # 4. trace validation
+    judged, viol_end, notes, hooked = judge(run, files, 4 if dev else None)
     run.samples = [{"scenario": scenarios[0]["name"], "summary": sums[0]}, {"scenario": scenarios[-1]["name"], "summary": sums[-1]}]
     run.extra_cov.update({
         "tlc_enumerated_scenarios": total_enum, "tlc_scenarios_replayed": replayed, "tlc_scenario_order_variants": n_enum,
@@ -223,11 +234,6 @@ def check(run):
         "admission_time_guards": hooked, "guard_failures_admission_mode": len(judged),
         "guard_failures_end_state_mode": len(viol_end),
         "model_drift_notes_code_counts_outside_spec_interval": len(notes)})
-    if notes:
-        run.notes.append("MODEL-DRIFT (no verdict): in %d admissions the code's own count of the target domain lay outside the spec's "
-                         "[certain, possible] interval" % len(notes))
-    if not hooked:
-        run.notes.append("tree without hook H1: only the end-state forms were evaluated")
     run.assumptions += [
         "the topology domain of a new NodeClaim for key k is the set of values its logged requirement admits (hostname: its own unique id)",
         "spread: the domain universe of a constraint is the code's own (hook H1) united with the spec's lower bound (domains of eligible "
@@ -246,7 +252,5 @@ def replay(run, path):
     scn = {k: v for k, v in cfg[0].items() if k not in ("e", "seq", "t")}
     files, sums = c01.run_driver(run, [scn], "replay", 1)
     run.note_case(scn.get("name", "replay"))
-    run.validate("Topology_Trace", "Topology_Trace.cfg", files)
-    run.validate("Topology_Trace", "Topology_TraceEnd.cfg", files)
-    run.viol = [v for v in run.viol if not str(v.get("guard", "")).startswith("Note_")]
+    judge(run, files)
     run.samples = [{"scenario": scn.get("name"), "summary": sums[0]}]
